@@ -7,20 +7,21 @@ import (
 	"runtime"
 	"slices"
 	"sort"
-	"sync"
 	"strings"
+	"sync"
 	"sync/atomic"
 	"testing"
 	"testing/synctest"
 	"time"
 
 	"github.com/cilium/statedb"
+	"github.com/cilium/statedb/index"
 
 	"verifharness/vkit"
 )
 
 const rule = "random schedules under virtual time (testing/synctest): 0..12 channels (pre-closed, closing at distinct integer milliseconds, or never; in a quarter of the schedules also a nil member), set built with Add (with duplicates) / Clear / Merge, contexts of four kinds (cancel, cancel with cause, deadline, deadline with cause), " +
-	"settle time 0 or k+0.5 ms, cancellation at a distinct millisecond, up to 3 consecutive Wait calls on the same set; return time, returned set, error and Has() of every channel are compared with the model, "+
+	"settle time 0 or k+0.5 ms, cancellation at a distinct millisecond, up to 3 consecutive Wait calls on the same set; return time, returned set, error and Has() of every channel are compared with the model, " +
 	"and the slices returned by earlier calls are re-read after every later call; " +
 	"non-trivial = the set was non-empty at the call; distinct = hash of the schedule"
 
@@ -96,6 +97,16 @@ func runSchedule(r *vkit.Run, t *testing.T, idx int) {
 				}(i)
 			}
 		}
+		// one of the pre-closed channels may be the closed channel the library itself hands out (Table.Initialized of an
+		// initialized table, ChangeIterator.Next with changes pending): a member like any other
+		if rng.IntN(5) == 0 {
+			for i := range ro {
+				if sc.CloseAt[i] == 0 {
+					ro[i] = libraryClosedChannel()
+					break
+				}
+			}
+		}
 		// Build the set with Add (duplicates), Clear and Merge.
 		ws := statedb.NewWatchSet()
 		member := make([]bool, sc.N)
@@ -148,6 +159,7 @@ func runSchedule(r *vkit.Run, t *testing.T, idx int) {
 		}
 
 		var earlier, earlierCopy [][]<-chan struct{}
+		returnedOnce := make([]bool, sc.N)
 		time.Sleep(100 * time.Microsecond)
 		for ci := range sc.Calls {
 			cd := &sc.Calls[ci]
@@ -301,6 +313,7 @@ func runSchedule(r *vkit.Run, t *testing.T, idx int) {
 			// set afterwards = members minus returned
 			for _, g := range gotIdx {
 				member[g] = false
+				returnedOnce[g] = true
 			}
 			for i := range ro {
 				if ws.Has(ro[i]) != member[i] {
@@ -312,6 +325,25 @@ func runSchedule(r *vkit.Run, t *testing.T, idx int) {
 			}
 			// idle a little between calls; every call starts at x.1 ms so that starts (x.1), closes (x.0), cancellations (x.35)
 			// and settle expiries (x.5 / x.6) can never coincide
+			// between calls the set may grow: channels that were not members are added or merged in
+			if rng.IntN(3) == 0 {
+				grow := statedb.NewWatchSet()
+				viaMerge := rng.IntN(2) == 0
+				for i := range ro {
+					if !member[i] && !returnedOnce[i] && rng.IntN(2) == 0 {
+						member[i] = true
+						if viaMerge {
+							grow.Add(ro[i])
+						} else {
+							ws.Add(ro[i])
+						}
+						events = append(events, fmt.Sprintf("after call %d: channel %d joins the set (merge=%v)", ci, i, viaMerge))
+					}
+				}
+				if viaMerge {
+					ws.Merge(grow)
+				}
+			}
 			off := time.Since(t0) % time.Millisecond
 			time.Sleep(time.Duration(1+rng.IntN(20))*time.Millisecond - off + 100*time.Microsecond)
 		}
@@ -343,7 +375,6 @@ func TestVerif_Schedules(t *testing.T) {
 	}
 	r.Finish()
 }
-
 
 // ---- concurrent use of one WatchSet (race detector) ----
 
@@ -559,3 +590,31 @@ func TestVerifRace_ConcurrentWaits(t *testing.T) {
 	r.ParallelCases(vkit.N(200, 5000), 4, func(i int) { concurrentRun(r, i) })
 	r.Finish()
 }
+
+var (
+	libClosedOnce sync.Once
+	libClosed     <-chan struct{}
+)
+
+// libraryClosedChannel returns the shared pre-closed watch channel of the library, as the public API hands it out.
+func libraryClosedChannel() <-chan struct{} {
+	libClosedOnce.Do(func() {
+		db := statedb.New()
+		tbl, err := statedb.NewTable(db, "c20", statedb.Index[*c20obj, uint64]{
+			Name:       "id",
+			FromObject: func(o *c20obj) index.KeySet { return index.NewKeySet(index.Uint64(o.ID)) },
+			FromKey:    index.Uint64,
+			Unique:     true,
+		})
+		if err != nil {
+			panic(err)
+		}
+		_, libClosed = tbl.Initialized(db.ReadTxn())
+	})
+	return libClosed
+}
+
+type c20obj struct{ ID uint64 }
+
+func (*c20obj) TableHeader() []string { return []string{"ID"} }
+func (o *c20obj) TableRow() []string  { return []string{fmt.Sprint(o.ID)} }
